@@ -290,8 +290,10 @@ func forInnerLabels(f *forExpander) forStateFn {
 			}
 		} else if f.nextToken.IsOp() {
 			if f.forLineLabelsToWrite != nil {
-				for _, label := range f.forLineLabelsToWrite {
+				for i, label := range f.forLineLabelsToWrite {
 					f.tokens <- token{tokText, label}
+					// the label as written, for references from outside the block
+					f.tokens <- token{tokText, f.forLineLabels[i]}
 				}
 				f.forLineLabelsToWrite = nil
 			}
